@@ -497,13 +497,20 @@ Definition omem (a : option name) (l : list (option name)) : bool := existsb (on
 
 (* acceptor state: the keyspaces a connection may legitimately be in now (`base`); the calls in
    flight, each with a flag "no other call has been in flight since it started"; for every started
-   request its own allowed set (base at its start + every call made since) *)
+   request its own allowed set (base at its start + every call made since); the canonical names of
+   the current group of overlapping calls (from the moment a call starts with none in flight until
+   none is in flight again) and whether all of its calls that returned so far returned Ok.
+   `base` collapses to one keyspace after an undisturbed successful call, and to the names of the
+   group after a group of overlapping calls that ALL returned Ok (each of them made every connection
+   acknowledge its keyspace, so a connection can only be in one of those); otherwise it only grows. *)
 Record acc := mkAcc {
   base : list (option name);
   inflight : list (nat * (ks * bool));
-  open : list (nat * list (option name))
+  open : list (nat * list (option name));
+  group : list (option name);
+  gok : bool
 }.
-Definition acc_init (k0 : option name) : acc := mkAcc [k0] [] [].
+Definition acc_init (k0 : option name) : acc := mkAcc [k0] [] [] [] true.
 
 Fixpoint lookup_q (q : nat) (l : list (nat * list (option name))) : option (list (option name)) :=
   match l with
@@ -535,17 +542,24 @@ Definition acc_step (a : acc) (e : ev) : option acc :=
       Some (mkAcc (n :: base a)
                   ((u, (k, match inflight a with [] => true | _ => false end))
                      :: map (fun x => (fst x, (fst (snd x), false))) (inflight a))
-                  (map (fun qa => (fst qa, n :: snd qa)) (open a)))
+                  (map (fun qa => (fst qa, n :: snd qa)) (open a))
+                  (match inflight a with [] => [n] | _ => n :: group a end)
+                  (match inflight a with [] => true | _ => gok a end))
   | ERet u ok =>
       match lookup_u u (inflight a) with
       | None => None
       | Some (k, clean) =>
           let rest := filter (fun x => negb (Nat.eqb (fst x) u)) (inflight a) in
           if ok && clean
-          then Some (mkAcc [Some (canon k)] rest (open a))   (* an undisturbed call succeeded *)
-          else Some (mkAcc (base a) rest (open a))
+          then Some (mkAcc [Some (canon k)] rest (open a) [] true)   (* an undisturbed call succeeded *)
+          else
+            let g := gok a && ok in
+            Some (mkAcc (match rest with
+                         | [] => if g then group a else base a   (* a group of overlapping calls ended *)
+                         | _ => base a
+                         end) rest (open a) (group a) g)
       end
-  | EStart q => Some (mkAcc (base a) (inflight a) ((q, base a) :: open a))
+  | EStart q => Some (mkAcc (base a) (inflight a) ((q, base a) :: open a) (group a) (gok a))
   | EFrame q x =>
       match lookup_q q (open a) with
       | None => None
